@@ -287,6 +287,8 @@ def shard(sh):
     rng = rng_for(sh["seed"], "c03", sh["kind"], sh["sub"])
     if sh["kind"] == "sample":
         for i in range(sh["n"]):
+            if run.enough():
+                break
             sc = gen_scenario(rng)
             for j in range(sh["schedules"]):
                 p = rng.choice([0.05, 0.25, 0.6, 1.0])
@@ -300,6 +302,8 @@ def shard(sh):
     elif sh["kind"] == "enum":
         # short histories: first death at injection point k, for every k reached
         for i in range(sh["n"]):
+            if run.enough():
+                break
             sc = gen_scenario(rng, small=True)
             v, k0 = run_one(run, e3, sc, e3.IndexSchedule([]), "immediate")
             run.case(sig_of(sc, k0.deliveries))
